@@ -16,6 +16,8 @@ def _crit(kind):
     if kind == "xy_uuid":  # the frame's critical filter also names the critical ground truths
         return ("xy_uuid", [real(f"crit_max_x_{i}", 0, 200) for i in range(n)], [real(f"crit_max_y_{i}", 5, 200) for i in range(n)],
                 ["g0"])
+    if kind == "dist_fixed":  # concrete ring (map-frame scenes: a symbolic ring makes both renderings non-linear)
+        return ("dist", [60.0, 25.0], [2.5, 1.0])
     return ("dist", [real(f"crit_max_d_{i}", 0, 200) for i in range(n)], [real(f"crit_min_d_{i}", 0, 50) for i in range(n)])
 
 
@@ -129,6 +131,9 @@ def obligations(pid, tier):
                     sym_thr = (n + m <= 2) or (n + m == 3 and f == "base_link") or (not quick and n + m <= 3)
                     cases.append(dict(frame=f, ego_q=qq, n=n, m=m, policy=policy, crit_kind=ck, sym_thr=sym_thr,
                                       e_labels=[CAR] if small else [CAR, PED], g_labels=[CAR, FP] if small else [CAR, PED, FP]))
+    # map-frame scenes under a distance ring centred on the ego (concrete ring bounds)
+    cases += [dict(frame="map", ego_q="yaw_3_4_5", n=n, m=m, policy="default", crit_kind="dist_fixed", sym_thr=False,
+                   e_labels=[CAR, PED], g_labels=[CAR, PED, FP]) for (n, m) in ((1, 1), (2, 1))]
     cases += [dict(c, pf_reversed=True) for c in cases if c["n"] + c["m"] <= 2 and c["frame"] == "base_link"
               and c["crit_kind"] == "xy"]
     cases += [dict(c, crit_kind="xy_uuid") for c in cases if c["crit_kind"] == "xy" and c["policy"] == "default"
